@@ -75,3 +75,62 @@ def eid_rewrite(args):
         return ['ERR', 'Recursion']
     except Exception as e:
         return ['ERR', exc_kind(e)]
+
+# ---------------------------------------------------------------------------------------
+# peg stage: run one rule of the shipped parser on pre-parsed text, dump the tree
+# ---------------------------------------------------------------------------------------
+def dump_tree(node):
+    """(off, len, [types], [[label, idx]...], [kids]) of a canopy TreeNode"""
+    from bluebell.akn import TreeNode
+    import bluebell.types as T
+    cls = type(node)
+    types = []
+    # mixed-in types, in the order they were applied (innermost first): walk the generated class chain
+    c = cls
+    chain = []
+    while c is not TreeNode and not (c.__module__ == 'bluebell.akn' and c.__bases__ == (TreeNode,)) and c is not object:
+        # class created by type(cls0.__name__ + 'X', (cls0, types.X), {})
+        if len(c.__bases__) == 2 and c.__bases__[1].__module__ == 'bluebell.types':
+            chain.append(c.__bases__[1].__name__)
+            c = c.__bases__[0]
+        else:
+            break
+    types = list(reversed(chain))
+    labels = []
+    els = node.elements
+    for k, v in vars(node).items():
+        if k in ('text', 'offset', 'elements'):
+            continue
+        idx = next((i for i, e in enumerate(els) if e is v), None)
+        if idx is None:
+            labels.append([k, -1])
+        else:
+            labels.append([k, idx])
+    labels.sort(key=lambda x: (x[1], x[0]))
+    return [node.offset, len(node.text), types, labels, [dump_tree(e) for e in els]]
+
+def peg_rule(args):
+    """(rule, text) -> ['FAIL'] | ['OK', end_offset, tree]   (text is used as given: callers pre-parse it)"""
+    import sys
+    rule, text = args
+    from bluebell.parser import Parser
+    from bluebell.akn import FAILURE
+    import bluebell.types as types
+    sys.setrecursionlimit(20000)
+    try:
+        p = Parser(text, actions=None, types=types)
+        t = getattr(p, '_read_' + rule)()
+        if t is FAILURE:
+            return ['FAIL']
+        return ['OK', p._offset, dump_tree(t)]
+    except RecursionError:
+        return ['ERR', 'Recursion']
+
+def collapse_runs(t):
+    """children of an unlabelled, untyped node that are all childless untyped leaves are compared by span only"""
+    off, ln, types, labels, kids = t
+    kids = [collapse_runs(k) for k in kids]
+    if kids and not types and not labels and all((not k[2]) and (not k[3]) and k[4] == [] and k[1] >= 1 for k in kids):
+        if sum(k[1] for k in kids) == ln and kids[0][0] == off:
+            kids = ['run']
+    return [off, ln, types, labels, kids]
